@@ -101,6 +101,26 @@ func lookupFacts(s *src, f *facts) {
 		return s.str(i.Cond) == "function.Kind() != reflect.Func" && len(all[*ast.ReturnStmt](i.Body, nil)) > 0
 	}))
 	f.b("lkFallbackRejectsNonFunc", fbNonFunc != nil, s.pos(fbNonFunc))
+	// the walk runs on EVERY request, from the object held now: the primary lookup is an unconditional
+	// top-level statement of the resolver, and nothing but it and the fallback ever assigns `function`
+	perReq := primOK
+	if primary != nil && lb != nil {
+		top := false
+		for _, st := range lb.List {
+			if a, ok := st.(*ast.AssignStmt); ok && len(a.Rhs) == 1 && a.Rhs[0] == ast.Expr(primary) {
+				top = true
+			}
+		}
+		perReq = perReq && top
+		for _, a := range all[*ast.AssignStmt](lb, nil) {
+			for _, l := range a.Lhs {
+				if s.str(l) == "function" && !(len(a.Rhs) == 1 && a.Rhs[0] == ast.Expr(primary)) && !contains(fbIf, a) {
+					perReq = false
+				}
+			}
+		}
+	}
+	f.b("lkResolvesPerRequest", perReq, s.pos(primary))
 	ms := []string{}
 	for _, m := range s.methodsOf("closureManager") {
 		if ast.IsExported(m) {
